@@ -26,6 +26,12 @@ legacy t == t of the matrix path (property: both use the effective base).
 The p-value the overlap path reports for a column against itself (0.0, pinned by the library's
 integration tests) is modelled (ov_p_self) but is outside the property text (it states t = 0 for
 a column against itself and that the column is never listed; both are checked).
+Zero-variance boundary (float64 vs exact, DESIGN 2.4 / 7.2): where the variance under the square
+root of a t cancels exactly or to a rounding residue (|V| <= 1e-12 * sum of |terms of V|, computed
+with fractions from the model's own inputs) float64 and exact arithmetic legitimately return
+different members of {inf, NaN, 0, ~1e17}.  Such cells are compared like all others, but a
+disagreement of t / p there is skipped - provided the reported t is still a zero-variance statistic -
+and counted (skipped_near_threshold, coverage["zero_variance_boundary"]); rule in c13_util.py.
 """
 import copy
 import json
@@ -258,7 +264,16 @@ def build_terms(case, io):
         io["has_sq"] = sq is not None
         t = ("flat_map (fun sel => flat_map r_mat (pw_all sel %s %s)) %s"
              % (g_blocks(P), nterm, g_list([g_Z(s) for s in sels])))
-        jobs.append(("matrix", t, {"sels": sels}))
+        # zero-variance boundary cells (c13_util): exact variance of every cell from the very
+        # proportions / bases the model term above is fed with
+        Pf = U.full_from_blocks(U.frac_blocks(P))
+        if sq is None:
+            Nf = U.full_from_blocks(U.frac_blocks(Nb))
+        else:
+            We, SQe = U.frac_blocks(W), U.frac_blocks(sq)
+            Nf = U.full_from_blocks([[_eff_exact(We[x][y], SQe[x][y]) for y in (0, 1)] for x in (0, 1)])
+        bd = {s: _bd_props(Pf, Nf, lambda i, s=s: s if s >= 0 else nc + ncs + s, io) for s in sels}
+        jobs.append(("matrix", t, {"sels": sels, "bd": bd}))
         # legacy path on the displayed arrays of run B
         if all(_ok(B.get(n)) for n in ("column_proportions", "columns_base", "columns_margin",
                                        "columns_squared_base", "legacy_t")):
@@ -275,7 +290,15 @@ def build_terms(case, io):
                 t = ("flat_map (fun c => r_mat (legacy_t %s %s %s %s c)) (seq 0 %s)"
                      % (g_mat(props.tolist()), g_mat(wm.tolist()), g_mat(ub.tolist()), g_sq,
                         g_nat(props.shape[1])))
-                jobs.append(("legacy", t, {"n": props.shape[1]}))
+                pe = [[core.to_exact(x) for x in r] for r in props.tolist()]
+                if sqv is None:
+                    ne = [[core.to_exact(x) for x in r] for r in ub.tolist()]
+                else:
+                    sqe = [core.to_exact(x) for x in np.asarray(sqv, dtype=float).tolist()]
+                    ne = [[_eff1(core.to_exact(x), sqe[j] if j < len(sqe) else "nan")
+                           for j, x in enumerate(r)] for r in wm.tolist()]
+                bd = [_bd_props(pe, ne, lambda i, c=c: c, io) for c in range(props.shape[1])]
+                jobs.append(("legacy", t, {"n": props.shape[1], "bd": bd}))
     elif stream == "means":
         if not all(_ok(A.get(n)) for n in ("means", "stddev", "unweighted_counts")):
             return None
@@ -301,7 +324,11 @@ def build_terms(case, io):
              % (g_mat(P[0][0]), gS, gN, g_mat(P[0][0]), gN,
                 g_mat(P[1][0]), gS1, gN1, g_mat(P[1][0]), gN1,
                 g_list([g_nat(s) for s in sels])))
-        jobs.append(("overlap", t, {"sels": sels}))
+        CPf = [[core.to_exact(x) for x in r] for r in P[0][0]] + [[core.to_exact(x) for x in r] for r in P[1][0]]
+        SNrows = [(S[i], N[i]) if i < len(S) and i < len(N) else None for i in range(nr)] \
+            + [(S[0], N[0]) if S and N else None] * nrs
+        bd = {a: _bd_overlap(CPf, SNrows, a, io) for a in sels}
+        jobs.append(("overlap", t, {"sels": sels, "bd": bd}))
     # index sets from the reported p / t of run B
     if all(_ok(x) for x in B["t"]) and all(_ok(x) for x in B["p"]):
         # (own display position, (p matrix, t matrix)) of every displayed column
@@ -333,9 +360,84 @@ def _shape_like(m, like):
     return m
 
 
+# ---- zero-variance boundary cells (rule and rationale: c13_util, "zero-variance boundary") ----
+
+def _eff1(w, s):
+    """exact effective base w^2 / s as the model's eff_base computes it; not finite -> 'nan'"""
+    if not (U.is_num(w) and U.is_num(s)) or s == 0:
+        return "nan"
+    return w * w / s
+
+
+def _eff_exact(Wb, SQb):
+    return [[_eff1(w, SQb[i][j] if i < len(SQb) and j < len(SQb[i]) else "nan") for j, w in enumerate(r)]
+            for i, r in enumerate(Wb)]
+
+
+def _note_ratio(io, VS):
+    """smallest |V| / S among the cells that are NOT boundary cells (evidence: how far the rule's
+    1e-12 is from every cell whose disagreement would be a violation)"""
+    if VS is not None and VS[1] > 0 and not V.is_boundary(VS):
+        r = abs(VS[0]) / VS[1]
+        if io.get("min_ratio") is None or r < io["min_ratio"]:
+            io["min_ratio"] = r
+
+
+def _bd_props(Pf, Nf, ref_of_row, io):
+    """matrix like Pf: None (ordinary cell) or the boundary record of the cell, for the column
+    proportions test against reference column ref_of_row(i) of the same row"""
+    out = []
+    for i, row in enumerate(Pf):
+        cj = ref_of_row(i)
+        r = []
+        for j in range(len(row)):
+            ok = i < len(Nf) and 0 <= cj < len(row) and cj < len(Nf[i]) and j < len(Nf[i])
+            VS = V.prop_var_VS(row[j], Nf[i][j], row[cj], Nf[i][cj]) if ok else None
+            _note_ratio(io, VS)
+            r.append(V.boundary_cell(VS, row[j] - row[cj]) if VS is not None else None)
+        out.append(r)
+    return out
+
+
+def _bd_overlap(CPf, SNrows, a, io):
+    """same for the overlap test with selected subvariable a (rows: base rows then inserted)"""
+    out = []
+    for i, row in enumerate(CPf):
+        r = []
+        for b in range(len(row)):
+            VS = None
+            sn = SNrows[i] if i < len(SNrows) else None
+            if sn is not None and b != a and 0 <= a < len(row):
+                s, n = sn
+                try:
+                    VS = V.overlap_var_VS(s[a][a], s[b][b], s[a][b], n[a][a], n[b][b], n[a][b])
+                except IndexError:
+                    VS = None
+            _note_ratio(io, VS)
+            d = row[b] - row[a] if VS is not None and U.is_num(row[b]) and U.is_num(row[a]) else None
+            r.append(V.boundary_cell(VS, d) if VS is not None else None)
+        out.append(r)
+    return out
+
+
 # ------------------------------------------------------------------------------------
 # comparison
 # ------------------------------------------------------------------------------------
+
+def _cls(x):
+    """coarse class of a statistic (float, Fraction or 'nan'/'inf'/'-inf') for the evidence keys"""
+    e = core.to_exact(x)
+    if isinstance(e, str):
+        return e.lstrip("-")
+    return "0" if e == 0 else "huge(>=1e11)" if abs(e) >= 10 ** 11 else "finite"
+
+
+def _bd_skip(io, what, t_impl, m, part="t"):
+    """count one excused disagreement at a zero-variance boundary cell"""
+    io["bd_skipped"][what] = io["bd_skipped"].get(what, 0) + 1
+    k = "%s:%s impl=%s model=%s" % (what, part, _cls(tabs(t_impl)), _cls(m))
+    io["bd_kinds"][k] = io["bd_kinds"].get(k, 0) + 1
+
 
 def tabs(x):
     if x is None:
@@ -365,8 +467,10 @@ def _fix(m, n_r, n_c):
     return m if len(m) == n_r else [[] for _ in range(n_r)]
 
 
-def cmp_display(io, R, c, mt_full, mdf_full, fails, what, diag_payload=None):
-    """compare model payload-order full matrices with run R's display matrices for display col c"""
+def cmp_display(io, R, c, mt_full, mdf_full, fails, what, diag_payload=None, bd_full=None):
+    """compare model payload-order full matrices with run R's display matrices for display col c;
+    bd_full: payload-order matrix of zero-variance boundary records (None = ordinary cell): a
+    disagreement of t or p there is skipped (counted in io["bd_skipped"]) when boundary_consistent"""
     nr, nrs, nc, ncs = io["dims"]
     ro, co = R["row_order"][1], R["column_order"][1]
     T, Pv = R["t"][c], R["p"][c]
@@ -380,14 +484,33 @@ def cmp_display(io, R, c, mt_full, mdf_full, fails, what, diag_payload=None):
         return 0
     mt = U.display_of(mt_full, ro, co, nr + nrs, nc + ncs)
     mdf = U.display_of(mdf_full, ro, co, nr + nrs, nc + ncs)
+    try:
+        bd = U.display_of(bd_full, ro, co, nr + nrs, nc + ncs) if bd_full is not None else None
+    except IndexError:
+        bd = None
     n = 0
     for i in range(len(ro)):
         for j in range(len(co)):
             m = mt[i][j]
+            # zero-variance boundary cell (c13_util)?  Compared like every cell; a DISAGREEMENT there
+            # is rounding, not a violation, as long as the reported t is a zero-variance statistic
+            b = bd[i][j] if bd is not None else None
+            excused = b is not None and V.boundary_consistent(T[i, j], b)
+            io["t_cells"][what] = io["t_cells"].get(what, 0) + 1
+            if b is not None:
+                io["bd_seen"][what] = io["bd_seen"].get(what, 0) + 1
             if not core.close(tabs(T[i, j]), m):
-                fails.append((what + "-t", {"display_col": c, "cell": [i, j], "impl_t": float(T[i, j]),
-                                             "model_t_abs_t": m, "selected_payload": int(co[c]),
-                                             "payload": [int(ro[i]), int(co[j])]}))
+                if excused:
+                    _bd_skip(io, what, T[i, j], m)
+                    continue
+                det = {"display_col": c, "cell": [i, j], "impl_t": float(T[i, j]),
+                       "model_t_abs_t": m, "selected_payload": int(co[c]),
+                       "payload": [int(ro[i]), int(co[j])]}
+                if b is not None:
+                    det["zero_variance_boundary"] = {
+                        "note": "exact variance within 1e-12 of the sum of |its terms|, but the reported t "
+                                "is not a zero-variance statistic", "d": b["d"], "S": b["S"]}
+                fails.append((what + "-t", det))
                 return n
             if diag_payload is not None and int(co[j]) == diag_payload:
                 # what the code does (model: ov_p_self): the overlap path reports p = 0.0 for a
@@ -396,6 +519,9 @@ def cmp_display(io, R, c, mt_full, mdf_full, fails, what, diag_payload=None):
             else:
                 ep = expected_p(m, mdf[i][j])
             if not close_p(Pv[i, j], ep):
+                if excused:
+                    _bd_skip(io, what, T[i, j], m, "p")
+                    continue
                 fails.append((what + "-p", {"display_col": c, "cell": [i, j], "impl_p": float(Pv[i, j]),
                                              "expected_p": ep, "model_t_abs_t": m, "df": mdf[i][j]}))
                 return n
@@ -410,6 +536,7 @@ def compare(case, io, jobs, results, rep):
     nr, nrs, nc, ncs = io["dims"]
     stream = case["stream"]
     io["n_finite"] = 0
+    io["bd_skipped"], io["bd_seen"], io["t_cells"], io["bd_kinds"] = {}, {}, {}, {}
     parse = None
     for (kind, _t, aux), toks in zip(jobs, results):
         d = core.Dec(toks)
@@ -421,7 +548,7 @@ def compare(case, io, jobs, results, rep):
                 db = [_fix(ms[4 + q], *shp[q]) for q in range(4)]
                 tf = U.full_from_blocks([[tb[0], tb[1]], [tb[2], tb[3]]])
                 df = U.full_from_blocks([[db[0], db[1]], [db[2], db[3]]])
-                io["n_finite"] += cmp_display(io, B, c, tf, df, fails, "matrix")
+                io["n_finite"] += cmp_display(io, B, c, tf, df, fails, "matrix", bd_full=aux["bd"].get(sel))
                 if c == 0:
                     io.setdefault("model_t_full", {})
                 io["model_t_full"][sel] = tf
@@ -442,7 +569,8 @@ def compare(case, io, jobs, results, rep):
                 e = lambda a: [[] for _ in range(a)]
                 tf = U.full_from_blocks([[t0, e(nr)], [t1, e(nrs)]])
                 df = U.full_from_blocks([[d0, e(nr)], [d1, e(nrs)]])
-                io["n_finite"] += cmp_display(io, B, c, tf, df, fails, "overlap", diag_payload=sel)
+                io["n_finite"] += cmp_display(io, B, c, tf, df, fails, "overlap", diag_payload=sel,
+                                              bd_full=aux["bd"].get(sel))
         elif kind == "legacy":
             L = B["legacy_t"][1]
             for c in range(aux["n"]):
@@ -450,7 +578,7 @@ def compare(case, io, jobs, results, rep):
                 if c >= len(L):
                     fails.append(("legacy-shape", {"n_tests": len(L), "n_cols": aux["n"]}))
                     break
-                bad = _first_bad(L[c], m)
+                bad = _first_bad(L[c], m, aux["bd"][c] if c < len(aux["bd"]) else None, io)
                 if bad is not None:
                     fails.append(("legacy-t", {"display_col": c, "first_diff(i,j,impl,model)": bad}))
                     break
@@ -489,12 +617,24 @@ def compare(case, io, jobs, results, rep):
                 fails.append(("alpha-parse", {"impl": got, "model": parse}))
             if not (av[0] == "exc" and av[1] == parse[0]):
                 fails.append(("alpha-parse", {"impl": av, "model": parse}))
+    # zero-variance boundary cells: skipped AND counted (never silently)
+    for path, k in sorted(io["bd_skipped"].items()):
+        rep.cov["skipped_near_threshold"] += k
+        rep.dist("zero_variance_boundary_cells_skipped:" + path, k)
+    if io["bd_skipped"]:
+        rep.dist("cases_with_zero_variance_boundary_cells_skipped")
+    for path, k in sorted(io["bd_seen"].items()):
+        rep.dist("zero_variance_boundary_cells:" + path, k)
+    for kk, k in sorted(io["bd_kinds"].items()):
+        rep.dist("zero_variance_boundary_disagreement:" + kk, k)
+    for path, k in sorted(io["t_cells"].items()):
+        rep.dist("t_cells_compared:" + path, k)
     # relational oracles on the implementation alone
     _oracles(case, io, fails, rep)
     return fails
 
 
-def _first_bad(impl_m, model_m):
+def _first_bad(impl_m, model_m, bd=None, io=None):
     im = np.asarray(impl_m, dtype=float)
     if im.ndim != 2 or im.shape[0] != len(model_m):
         return ("shape", list(im.shape), len(model_m))
@@ -502,8 +642,20 @@ def _first_bad(impl_m, model_m):
         if im.shape[1] != len(model_m[i]):
             return ("shape", list(im.shape), len(model_m[i]))
         for j in range(im.shape[1]):
+            b = bd[i][j] if bd is not None and i < len(bd) and j < len(bd[i]) else None
+            if io is not None:
+                io["t_cells"]["legacy"] = io["t_cells"].get("legacy", 0) + 1
+                if b is not None:
+                    io["bd_seen"]["legacy"] = io["bd_seen"].get("legacy", 0) + 1
             if not core.close(tabs(im[i, j]), model_m[i][j]):
-                return (i, j, core.jsonable(im[i, j]), core.jsonable(model_m[i][j]))
+                if b is not None and io is not None and V.boundary_consistent(im[i, j], b):
+                    # zero-variance boundary cell that disagrees: rounding; skipped and counted
+                    _bd_skip(io, "legacy", im[i, j], model_m[i][j])
+                    continue
+                bad = (i, j, core.jsonable(im[i, j]), core.jsonable(model_m[i][j]))
+                if b is not None:
+                    bad += ("zero-variance boundary cell, but the reported t is not a zero-variance statistic",)
+                return bad
     return None
 
 
@@ -775,6 +927,37 @@ def run(tier, seed):
         "absent/falsy/float/[a]/[a,b]/[a,b,extra] plus a malformed stream; only_larger absent/false/true/other; "
         "60% with column order/hide transforms, 25% with row ones; non-trivial = at least one finite non-zero "
         "statistic compared; distinct by content hash")
+    ratios = [io["min_ratio"] for io in ios if io.get("min_ratio") is not None]
+    rep.cov["zero_variance_boundary"] = {
+        "rule": "every t / p cell is compared with the model; a DISAGREEMENT is not a violation but skipped "
+                "(and counted: skipped_near_threshold, distribution zero_variance_boundary_cells_skipped:<path>) "
+                "iff the cell is a zero-variance boundary cell: the variance V under its square root, "
+                "evaluated exactly (fractions) on the values the model term is fed with, satisfies "
+                "S > 0 and |V| <= 1e-12 * S, S = sum of the absolute values of V's terms "
+                "(p(1-p)/n, p0(1-p0)/n0; overlap: pa(1-pa), pb(1-pb), 2 pa pb, -2 pab, each / df): the "
+                "terms cancel (column proportions paths: only possible with a difference subtotal, whose "
+                "p(1-p) is negative) and float64 yields a rounding residue (or 0.0) where exact arithmetic "
+                "yields another residue (or 0), so t is inf / NaN / 0 / ~1e17 by rounding alone.  To be excused "
+                "the reported t must still be NaN or have the sign of the difference with "
+                "t^2 >= d^2 / (1e-9 * S) (t = 0 when d = 0), else it is a violation.  Every other "
+                "disagreement is a violation as always (V = 0 with S = 0, p, p0 in {0, 1}, is no boundary cell)",
+        "paths": "matrix (pairwise_significance_t_stats/p_vals), legacy (pairwise_significance_tests), overlap; "
+                 "not the means path (sum of non-negative terms, no cancellation)",
+        "boundary_cells": {k[len("zero_variance_boundary_cells:"):]: v
+                           for k, v in rep.cov["distribution"].items()
+                           if k.startswith("zero_variance_boundary_cells:")},
+        "skipped_cells(boundary cells that disagreed)": {
+            k[len("zero_variance_boundary_cells_skipped:"):]: v
+            for k, v in rep.cov["distribution"].items()
+            if k.startswith("zero_variance_boundary_cells_skipped:")},
+        "disagreements_by_kind(t*|t| classes)": {
+            k[len("zero_variance_boundary_disagreement:"):]: v
+            for k, v in rep.cov["distribution"].items()
+            if k.startswith("zero_variance_boundary_disagreement:")},
+        "compared_cells": {k[len("t_cells_compared:"):]: v for k, v in rep.cov["distribution"].items()
+                           if k.startswith("t_cells_compared:")},
+        "smallest_|V|/S_among_non_boundary_cells": float(min(ratios)) if ratios else None,
+    }
     rep.cov["coq_eval_seconds"] = round(coq_s, 2)
     rep.cov["model_terms_evaluated"] = nterms
     rep.assumptions = [
@@ -788,6 +971,11 @@ def run(tier, seed):
         "threshold decisions p < alpha are evaluated exactly on the reported float p (decisions within 1e-9 of "
         "alpha that disagree are skipped and counted)",
         "float64 vs exact rationals: relative tolerance 1e-9 on t*|t|",
+        "zero-variance boundary (IEEE rounding, a stated modelling gap): where the exact variance under the "
+        "square root cancels to within 1e-12 of the sum of the absolute values of its terms, float64 and "
+        "exact arithmetic legitimately give different members of {inf, NaN, 0, ~1e17}; a disagreement of t or p "
+        "at such a cell is skipped, provided the reported t is a zero-variance statistic, and counted in "
+        "skipped_near_threshold and coverage['zero_variance_boundary'] (rule in harness/props/c13_util.py)",
         "the p-value reported for a column against ITSELF on the overlap path (pairwise_significance_p_vals(a)[:, a] "
         "== 0.0, pinned by the library's tests/integration/test_pairwise_significance.py) is modelled as the code "
         "computes it (ov_p_self) but treated as outside the property: the property text states t = 0 for a column "
